@@ -59,10 +59,14 @@ def step1 (st : St) (cmd : String) (m : KV) : Option (St × String) :=
     let u ← getNat m "uid"
     let st' := ev (ev st (.swapOne u)) (.enqueueOne u)
     pure (st', digest st')
-  | "acct.forOld" => do       -- … on a retired record
+  | "acct.forOld" => do       -- … on a retired record, whose valve held (up, down): validated against `old`
     let u ← getNat m "uid"
-    let st' := ev (ev st (.swapOld u)) (.enqueueOne u)
-    pure (st', digest st')
+    let up ← getInt m "up"
+    let down ← getInt m "down"
+    if 0 ≤ up ∧ up ≤ st.s.old (u, false) ∧ 0 ≤ down ∧ down ≤ st.s.old (u, true) then
+      let st' := ev (ev st (.swapOld u up down)) (.enqueueOne u)
+      pure (st', digest st')
+    else pure (st, "invalid: more than the retired records hold")
   | "acct.commit" => do       -- commitUpdate: snapshot, UploadStatus, response loop
     let now ← getInt m "now"
     let s1 := Acct.step st.s .snapshot
